@@ -111,6 +111,18 @@ SAFE_UNARY = ["sin", "cos", "tanh", "atan", "exp_s", "sqrt_s", "ln_s", "abs", "s
               "tan_s", "asin_s", "acos_s", "erf"]
 
 
+def prob(draw, p) -> bool:
+    """True with probability ~p.  Drawn through sampled_from: Hypothesis' floats()/integers() are deliberately skewed towards
+    small values (measured: floats(0,1) < 0.1 in 33 % of draws, integers(0,9999) < 1000 in 71 %), which made rare classes common
+    and common ones rarer than intended.  False comes first so that shrinking switches features off."""
+    if p <= 0:
+        return False
+    if p >= 1:
+        return True
+    k = min(39, max(1, round(p * 40)))
+    return draw(st.sampled_from([False] * (40 - k) + [True] * k))
+
+
 class G:
     """Generation context of one spec."""
 
@@ -134,7 +146,7 @@ class G:
         return self.draw(st.sampled_from(list(seq)))
 
     def chance(self, p):
-        return self.draw(st.floats(0, 1, allow_nan=False)) < p if 0 < p < 1 else p >= 1
+        return prob(self.draw, p)
 
     def int(self, lo, hi):
         return self.draw(st.integers(lo, hi))
@@ -508,9 +520,10 @@ def gen_metadata(draw, pr, cell, m):
     tdim = TDIM[cell]
     if m == "dP":
         return md
-    if draw(st.floats(0, 1)) < pr.get("p_degree", 0.7):
+    if prob(draw, pr.get("p_degree", 0.7)):
         md["quadrature_degree"] = draw(st.integers(pr.get("min_qdeg", 0), pr.get("max_qdeg", 5)))
-    r = draw(st.floats(0, 1))
+    ps, pv = pr.get("p_scheme", 0.1), pr.get("p_vertex", 0.05)
+    r = 0.0 if prob(draw, ps) else (ps + 0.5 * pv if prob(draw, pv / max(1e-9, 1 - ps)) else 1.0)
     # entity the rule lives on
     ent_is_point = (m in ("ds", "dS") and tdim == 1) or (m == "dr" and tdim == 2)
     mixed_facets = cell == "prism" and m in ("ds", "dS")
@@ -554,9 +567,9 @@ def form_specs(draw, profile=None):
     cell = draw(st.sampled_from(pr["cells"]))
     tdim = TDIM[cell]
     gdim = tdim
-    if tdim < 3 and draw(st.floats(0, 1)) < pr["manifold"]:
+    if tdim < 3 and prob(draw, pr["manifold"]):
         gdim = tdim + 1
-    cdeg = 2 if draw(st.floats(0, 1)) < pr["nonaffine"] else 1
+    cdeg = 2 if prob(draw, pr["nonaffine"]) else 1
     if pr.get("affine_only"):
         cdeg = 1
     measures = [m for m in pr["measures"] if cell_supports(cell, m)]
@@ -601,10 +614,38 @@ def form_specs(draw, profile=None):
     if arity >= 1:
         args.append(new_element(True))
     if arity == 2:
-        args.append(args[0] if (pr.get("same_args") or draw(st.floats(0, 1)) < 0.6) else new_element(True))
+        args.append(args[0] if (pr.get("same_args") or prob(draw, 0.6)) else new_element(True))
     coefs = [new_element() for _ in range(ncoef)]
     const_shapes = [[], [], [gdim], [gdim, gdim], [2], [3], [2, 3]]
     consts = [draw(st.sampled_from(const_shapes)) for _ in range(nconst)]
+    qcoef = None
+    if (pr.get("p_qelement", 0.0) > 0 and set(int_measures) == {"dx"} and not pr.get("tp")
+            and prob(draw, pr["p_qelement"])):
+        # a coefficient living in a quadrature element: its points/weights define the rule of every integral it occurs in
+        qdeg = draw(st.integers(1, 3 if tdim == 3 else 4))
+        qE = ["quad", qdeg, "default", draw(st.sampled_from([[], [], [gdim]]))]
+        elements.append(qE)
+        tags.append("quadrature")
+        coefs.append(len(elements) - 1)
+        qcoef = len(coefs) - 1
+    sibling_coef = None
+    if pr.get("tp") and elements and prob(draw, pr.get("p_tp_sibling", 0.35)):
+        # two tensor-product elements of the same degree >= 3 whose 1D bases differ (GLL-warped vs equispaced nodes) in one
+        # kernel: their 1D factor tables must be kept apart although family, degree and derivative order coincide
+        cand = [i for i, E in enumerate(elements) if E[0] == "tp" and int(E[1]) >= 3]
+        if cand:
+            i = draw(st.sampled_from(cand))
+        else:
+            i = args[0] if args else 0
+            elements[i] = ["tp", 3] + list(elements[i][2:])
+        E = elements[i]
+        variant = E[3] if len(E) > 3 and E[3] else "gll_warped"
+        sib = ["tp", int(E[1]), [], "equispaced" if variant != "equispaced" else "gll_warped"]
+        if sib not in elements:
+            elements.append(sib)
+            tags.append("tp-variant-sibling")
+        coefs.append(elements.index(sib))
+        sibling_coef = len(coefs) - 1
     spec = {
         "kind": "form",
         "cell": cell,
@@ -624,13 +665,36 @@ def form_specs(draw, profile=None):
         md = gen_metadata(draw, pr, cell, m)
         sid = gen_subdomain_id(draw, pr)
         e = gen_integrand(g, m, pr["depth"])
+        if sibling_coef is not None:
+            e = ["mul", ["f", sibling_coef], e]
+            g.features.add("tp-variant-sibling")
+        if qcoef is not None and (j == 0 or draw(st.booleans())):
+            # the integral takes the quadrature element's own rule: no degree/scheme metadata of its own
+            md = {}
+            e = ["mul", to_scalar(g, ["f", qcoef]), e]
+            g.features.add("quadrature-element-coefficient")
         spec["integrals"].append({"m": m, "id": sid, "md": md, "e": e})
     # form-level transformation (C05: coefficients that drop out of the compiled form)
-    if arity <= 1 and coefs and draw(st.floats(0, 1)) < pr.get("p_derivative", 0.0):
+    if arity <= 1 and coefs and prob(draw, pr.get("p_derivative", 0.0)):
         used = sorted({k for I in spec["integrals"] for k in _coefs_in(I["e"])})
         if used:
             spec["transform"] = ["derivative", draw(st.sampled_from(used))]
             g.features.add("transform:derivative")
+    if "transform" not in spec and prob(draw, pr.get("p_transform", 0.0)):
+        # form-level operators applied to the finished form (UFL expands them; FFCx must compile the result)
+        opts = []
+        if arity == 2:
+            opts.append(["adjoint"])
+            same = [k for k, ei in enumerate(coefs) if ei == args[1]]
+            if same:
+                opts.append(["action", draw(st.sampled_from(same))])
+        pairs = [(a, b) for a in range(len(coefs)) for b in range(len(coefs)) if a != b and coefs[a] == coefs[b]]
+        if pairs:
+            a, b = draw(st.sampled_from(pairs))
+            opts.append(["replace", a, b])
+        if opts:
+            spec["transform"] = draw(st.sampled_from(opts))
+            g.features.add("transform:" + spec["transform"][0])
     if pr.get("shuffle_decl") and draw(st.booleans()):
         names = [f"f{k}" for k in range(len(coefs))] + [f"c{k}" for k in range(len(consts))]
         spec["order"] = list(draw(st.permutations(names)))
@@ -703,9 +767,9 @@ def expr_specs(draw, profile=None):
     pr.update(profile or {})
     cell = draw(st.sampled_from([c for c in pr["cells"] if c != "prism"]))
     tdim = TDIM[cell]
-    gdim = tdim + 1 if (tdim < 3 and draw(st.floats(0, 1)) < pr["manifold"]) else tdim
-    cdeg = 2 if draw(st.floats(0, 1)) < pr["nonaffine"] else 1
-    facet = tdim >= 2 and draw(st.floats(0, 1)) < pr.get("p_facet", 0.35)
+    gdim = tdim + 1 if (tdim < 3 and prob(draw, pr["manifold"])) else tdim
+    cdeg = 2 if prob(draw, pr["nonaffine"]) else 1
+    facet = tdim >= 2 and prob(draw, pr.get("p_facet", 0.35))
     m = "ds" if facet else "dx"
     maxdeg = min(pr["maxdeg"], 2 if tdim == 3 else 3)
     pool = element_pool(cell, gdim, maxdeg=maxdeg, rich=True)
@@ -720,7 +784,7 @@ def expr_specs(draw, profile=None):
         tags.append(tag)
         return len(elements) - 1
 
-    has_arg = draw(st.floats(0, 1)) < pr.get("p_argument", 0.4)
+    has_arg = prob(draw, pr.get("p_argument", 0.4))
     args = [new_element()] if has_arg else []
     coefs = [new_element() for _ in range(draw(st.integers(0 if has_arg else 1, 3)))]
     const_shapes = [[], [], [gdim], [gdim, gdim], [2], [2, 3]]
